@@ -34,6 +34,7 @@ def evaluate(ctx, P, env, cases, with_model=True):
     if spec_idx and env.get("lhv"):
         so, _ = core.run_lines_parallel([env["lhv"]], [cases[i].spec for i in spec_idx])
         s_outs = dict(zip(spec_idx, so))
+    canon = getattr(P, "canon", lambda x: x)
     concrete, corr = [], []
     group_why = P.judge_groups(cases, c_outs) if hasattr(P, "judge_groups") else {}
     for i, c in enumerate(cases):
@@ -64,7 +65,7 @@ def evaluate(ctx, P, env, cases, with_model=True):
             rec["why"] = why
             rec["sig"] = P.signature(c, co, why) if hasattr(P, "signature") else "generic"
             concrete.append(rec)
-        elif m_outs is not None and m_outs[i] != co:
+        elif m_outs is not None and m_outs[i] != canon(co):
             rec["why"] = "model and implementation disagree"
             corr.append(rec)
     return concrete, corr, {"evaluations": len(cases)}
